@@ -24,7 +24,9 @@ RULE = ("(declaration, class options, input mapping); non-trivial = at least two
 ASSUMPTIONS = [
     "value conversion of a single field = utype.type_transform(value, field type) (judged by C01/C02); this check judges which value ends up where",
     "silent (counted): one field fed under several names with unequal raw values (conflict semantics are C06's subject); callable no_input / no_output; Final fields; "
-    "@property fields (C07)",
+    "@property fields (C07); a field whose invalid value is excluded and that names dependencies (whether it counts as provided is not specified)",
+    "subclasses: the contract is the parent's fields that are not redeclared plus the class's own declarations, under the class's options; the parent is declared "
+    "with the same case_insensitive choice (letter-case handling of a field is fixed where the field is declared)",
     "fail-fast order is unspecified: the raised error must be ONE of the failures the model finds",
 ]
 SHARDS = {"quick": 4, "thorough": 16}
@@ -35,7 +37,7 @@ MISSING = object()
 def sanitize(d):
     import json
     d = json.loads(json.dumps(d))
-    for fd in d["fields"]:
+    for fd in d["fields"] + list((d.get("parent") or {}).get("fields", [])):
         f = fd.get("f") or {}
         for k in ("no_input", "no_output"):
             if isinstance(f.get(k), str) and f[k].startswith("fn:"):
@@ -157,7 +159,8 @@ def model(d, pairs):
         vals = [codec.decode(v) for _, v in given]
         if len(vals) > 1:
             try:
-                same = all(oracle.equal(vals[0], x) for x in vals[1:])
+                # the library compares the raw input values with `!=` (NaN, fresh objects: unequal)
+                same = all(not (vals[0] != x) for x in vals[1:])
             except Exception:
                 same = False
             if not same:
@@ -188,6 +191,9 @@ def model(d, pairs):
                 result[n] = value
                 took_input.add(n)
             elif pol == "exclude":
+                if f.get("dependencies"):
+                    # "provided" for the dependency rule: the field was given but its value was dropped - not specified
+                    return {"verdict": None, "unspecified": "excluded-field-with-dependencies"}
                 if is_required(f, o):
                     failures.add(("ParseError", out))
                 elif avail and not deferred:
@@ -266,6 +272,9 @@ def run_case(case):
     try:
         try:
             cls = dspec.build_decl(d)
+            if d.get("parent"):
+                # the contract of a subclass: the parent's fields it does not redeclare, then its own declarations
+                d = dict(d, fields=dspec.all_fields(d))
             mod = model(d, pairs)
         except HarnessError:
             raise
@@ -373,7 +382,7 @@ def judge(case):
 
 
 def case_strategy():
-    decls = dspec.decl_specs(options=dspec.CLASS_OPTIONS)
+    decls = dspec.decl_specs(options=dspec.CLASS_OPTIONS, inherit=True)
     return decls.flatmap(lambda d: st.fixed_dictionaries({"decl": st.just(d), "input": dspec.inputs_for(d)}))
 
 
@@ -393,6 +402,10 @@ def campaign(ctx):
         if r["status"] == "unspecified":
             ctx.label(f"unspecified_{r['why']}")
         if r["status"] in ("accepted", "rejected"):
+            if case["decl"].get("parent"):
+                ctx.label("subclass_of_a_generated_parent")
+                if any(p[0] in dspec.stale_names(case["decl"]) for p in vs["v"]):
+                    ctx.label("input_uses_a_name_only_the_parent_accepted")
             for f in r["feats"]:
                 ctx.label(f"feature_{f}")
             if len(r["feats"]) >= 2:
